@@ -24,7 +24,11 @@ def run(ctx):
                "the i64 backend is exercised only in the box {<=3x3,|a|<=100} u {<=4x4,|a|<=10} u {<=6x6,|a|<=2}; outside it "
                "intermediate values overflow machine integers (documented observation, DESIGN.md section 6)",
                "the fixed-size Matrix<T,N,M> keeps rank/solve/... private; without a hook only its public row-echelon constructor is driven")
-    # 0. the elimination machine: invariants and read-out theorems on ALL small matrices, for EVERY choice of pivot rows
+    # 0a. the p-adic solver machine: lifting invariants and the reconstruction theorem on ALL small systems
+    for cfg in (["a", "c"] if ctx.quick else ["a", "b", "c", "d"]):
+        ctx.mc("MC_PAdic", cfg="MC_PAdic_" + cfg, workers=8, require_actions=(("PNext",) if cfg == "a" else ()),
+               universe=f"p-adic solver machine on all systems of MC_PAdic_{cfg}.cfg")
+    # 0b. the elimination machine: invariants and read-out theorems on ALL small matrices, for EVERY choice of pivot rows
     for cfg in (["z22", "z23", "z32", "f22", "f23"] if ctx.quick else
                 ["z22", "z23", "z32", "z33", "z24", "z42", "z33b", "z34", "z43", "f22", "f23", "f32", "f33", "f33b", "f34"]):
         ctx.mc("MC_Echelon", cfg="MC_Echelon_" + cfg, workers=8, require_actions=(("ENext",) if cfg == "z22" else ()),
